@@ -371,7 +371,21 @@ class Runner:
         lat, lon = q_degrees(af, q)
         ev = {"a": "T2D", "q": {k: q[k] for k in ("g", "r", "c", "xn", "yn")}, "m": m, "fwd": 1 if fwd else 0, "exc": "",
               "none": 0, "v": ZERO4, "pay": "", "pp": "skip", "reads": [], "lat": fix.enc(lat), "lon": fix.enc(lon),
-              "out": [[0], [0]], "kind": q["kind"]}
+              "out": [[0], [0]], "kind": q["kind"], "intsame": True}
+        # a whole-degree position inside this sub-grid (if there is one), as floats and as Python ints: same numbers, same answer
+        sg = af["subs"][q["g"] - 1]
+        ilat = -(-sg["s"] // 3600000)            # smallest whole degree >= the southern limit (limits in 0.001")
+        ilon_w = -(-sg["e"] // 3600000)          # longitude positive WEST in the file
+        if ilat * 3600000 < sg["n"] and ilon_w * 3600000 < sg["w"]:
+            def call(a, b):
+                try:
+                    o = self.tr.ntv2_2d(grid, a, b, forward_tf=fwd, method=m)
+                    return hexes([float(o[0]), float(o[1])])
+                except Exception as ex:
+                    return "exc:" + type(ex).__name__
+            self.nint = getattr(self, "nint", 0) + 1
+            ev["intsame"] = call(float(ilat), float(-ilon_w)) == call(int(ilat), int(-ilon_w))
+            self.calls += 2
         exc, none, vals, _ = self._interp(grid, lat, lon, m, False)
         ev["none"] = none
         if vals is not None and not exc and all(math.isfinite(v) for v in vals):
@@ -634,6 +648,7 @@ def run(ctx):
         Rn = Runner(workdir)
         execute(traces, plans, Rn)
         ctx.evaluations += Rn.calls
+        ctx.extra["ntv2_2d_pairs_float_vs_int_arguments"] = getattr(Rn, "nint", 0)
         st_traces, st_check = selftest_cases(traces)
         fails, ended, io = validate(traces + st_traces, PAR, ctx, "Trace_NTv2")
         ctx.extra["binding_selftest"] = st_check([f for f in fails if f[0] >= ST_BASE], ended)
